@@ -850,3 +850,72 @@ Section HybridFacts.
     - apply hyb_inv_empty.
   Qed.
 End HybridFacts.
+
+(* ================================================================== HybridCache: the victim has a minimal score *)
+Section HybridPolicy.
+  Variable A : arith.
+  Variables aw dw : num A.
+  Variable mx : nat.
+  Hypothesis Hmx : 1 <= mx.
+  (* `<` on scores is a strict order (true of IEEE `<`, also in the presence of nan, where it is just empty;
+     not derivable here because the arithmetic is abstract) *)
+  Hypothesis Hirr : forall x, nltb A x x = false.
+  Hypothesis Htrans : forall x y z, nltb A x y = true -> nltb A y z = true -> nltb A x z = true.
+
+  Lemma nltb_asym : forall x y, nltb A x y = true -> nltb A y x = false.
+  Proof.
+    intros x y H. destruct (nltb A y x) eqn:E; auto. pose proof (Htrans _ _ _ H E) as C. now rewrite Hirr in C.
+  Qed.
+
+  Lemma argmin_spec : forall l b,
+    exists sv, In (argmin A b l, sv) (b :: l)
+               /\ (sv = snd b \/ nltb A sv (snd b) = true)
+               /\ forall x, In x l -> nltb A (snd x) sv = false.
+  Proof.
+    induction l as [|[k x] t IH]; intros b; cbn [argmin].
+    - exists (snd b). split; [left; now destruct b | split; auto]. intros x [].
+    - destruct (nltb A x (snd b)) eqn:E.
+      + destruct (IH (k, x)) as (sv & Hin & Hle & Hall). cbn [snd] in *. exists sv. split; [now right|]. split.
+        * right. destruct Hle as [->|Hle]; auto. eapply Htrans; eauto.
+        * intros y [<-|Hy]; auto. cbn [snd]. destruct Hle as [->|Hle]; [apply Hirr | now apply nltb_asym].
+      + destruct (IH b) as (sv & Hin & Hle & Hall). exists sv. split.
+        * destruct Hin as [H|H]; [now left | right; now right].
+        * split; auto. intros y [<-|Hy]; auto. cbn [snd]. destruct Hle as [->|Hle]; auto.
+          destruct (nltb A x sv) eqn:E2; auto. rewrite (Htrans _ _ _ E2 Hle) in E. discriminate.
+  Qed.
+
+  Lemma argmin_min : forall l b,
+    exists sv, In (argmin A b l, sv) (b :: l) /\ forall x, In x (b :: l) -> nltb A (snd x) sv = false.
+  Proof.
+    intros l b. destruct (argmin_spec l b) as (sv & Hin & Hle & Hall). exists sv. split; auto.
+    intros x [<-|Hx]; auto. destruct Hle as [->|Hle]; [apply Hirr | now apply nltb_asym].
+  Qed.
+
+  (* hybrid_policy: a put into a full cache removes exactly one entry, the key `victim st`; its score
+       access_weight * count/sum(counts) + duration_weight * duration/sum(durations)   (score_list st)
+     is not greater than the score of any other entry, and then stores the new entry *)
+  Theorem hyb_policy : forall ops k v d,
+    let st := final (hyb_step A aw dw mx true) hyb_empty ops in
+    mx <= length (h_dict st) ->
+    hyb_put A aw dw mx true st k v d
+    = (mkHyb (aset k v (adel (victim A aw dw st) (h_dict st))) (aset k 1 (adel (victim A aw dw st) (h_cnt st)))
+             (aset k d (adel (victim A aw dw st) (h_dur st))), ONone)
+    /\ In (victim A aw dw st) (map fst (h_dict st))
+    /\ exists sv, In (victim A aw dw st, sv) (score_list A aw dw st)
+                  /\ forall k' s, In (k', s) (score_list A aw dw st) -> nltb A s sv = false.
+  Proof.
+    intros ops k v d st Hfull. pose proof (hyb_inv_reachable A aw dw mx Hmx ops) as Hinv. fold st in Hinv.
+    pose proof Hinv as (Kc & Kd & ND & LE & POS).
+    assert (NE : h_dict st <> []) by (intros H; rewrite H in Hfull; cbn in Hfull; lia).
+    assert (NEc : h_cnt st <> []).
+    { intros H. rewrite H in Kc. cbn in Kc. destruct (h_dict st); [congruence | discriminate]. }
+    split; [|split].
+    - unfold hyb_put. apply Nat.leb_le in Hfull. rewrite Hfull.
+      rewrite (hyb_expire_eq A aw dw mx Hmx st Hinv NE). reflexivity.
+    - rewrite <- Kc. now apply victim_In.
+    - unfold victim. destruct (score_list A aw dw st) as [|b r] eqn:ES.
+      + unfold score_list in ES. destruct (h_cnt st); [congruence | discriminate].
+      + destruct (argmin_min r b) as (sv & Hin & Hall). exists sv. split; auto.
+        intros k' s Hks. apply (Hall (k', s) Hks).
+  Qed.
+End HybridPolicy.
